@@ -14,6 +14,7 @@ from ..common import Check, Tally, ob, tier, replay_main, TIER
 
 PID = "C19"
 HMIN, HMAX, BMAX = 16, 512, 8
+MAXTR = 40
 
 
 def quiet(f, *a, **k):
@@ -159,7 +160,7 @@ def work(item):
     hints = [(2, spec["in_ch"], 32, 48), (1, spec["in_ch"], 32, 48)]
     status, viol, ntraces = "holds", None, 0
     samples = []
-    while hints and ntraces < 14:
+    while hints and ntraces < MAXTR:
         hint = hints.pop(0)
         t0 = time.time()
         ins, lat, outs, guards = trace(build, hint)
@@ -170,6 +171,7 @@ def work(item):
         for e_in, zv in ((ins[0], B), (ins[2], H), (ins[3], W)):
             if getattr(e_in, "is_Symbol", False):
                 syms[str(e_in)] = zv
+                special.append(zv >= 2)              # torch's ShapeEnv reasons about a dynamic size under the assumption size >= 2 (0/1 specialisation)
             else:
                 special.append(zv == int(e_in))      # torch specialised this size (0/1 specialisation): the trace covers that value only
         try:
@@ -188,9 +190,12 @@ def work(item):
         if r != z3.sat:
             status = "inconclusive" if r == z3.unknown else status
             continue
-        # (b) contract
-        bad = z3.Or(out_z[0] != B, out_z[1] != spec["in_ch"], out_z[2] != H, out_z[3] != W,
-                    lat_z[0] != B, lat_z[1] != spec["latent_channels"], lat_z[2] * stride != H, lat_z[3] * stride != W)
+        # (b) contract (a result of the wrong rank violates it on the whole region)
+        if len(out_z) != 4 or len(lat_z) != 4:
+            bad = z3.BoolVal(True)
+        else:
+            bad = z3.Or(out_z[0] != B, out_z[1] != spec["in_ch"], out_z[2] != H, out_z[3] != W,
+                        lat_z[0] != B, lat_z[1] != spec["latent_channels"], lat_z[2] * stride != H, lat_z[3] * stride != W)
         t1 = time.time()
         r = s.check(region, bad)
         tl.count(str(r), time.time() - t1)
@@ -226,7 +231,7 @@ def work(item):
     if viol:
         obs.append(ob("shape contract", name, "violated", **viol, **tl.take()))
     else:
-        obs.append(ob("shape contract", name, status, what="" if status == "holds" else "admissible sizes not covered by the traced guard regions within 14 traces",
+        obs.append(ob("shape contract", name, status, what="" if status == "holds" else f"admissible sizes not covered by the traced guard regions within {MAXTR} traces",
                       sample=dict(query=f"exists B in [1,{BMAX}], H, W in [{HMIN},{HMAX}] multiples of {stride}: decoder(encoder(x)).shape != x.shape or latent != (B, {spec['latent_channels']}, H/{stride}, W/{stride})",
                                   traces=samples, admissible_region_fully_covered=uncovered), **tl.take()))
     return obs
@@ -298,7 +303,7 @@ def main():
     from kaira.models.image import bourtsoulatze2019_deepjscc as Bm, tung2022_deepjscc_q as Tm
     ck.encoded(Bm.Bourtsoulatze2019DeepJSCCEncoder.forward, Bm.Bourtsoulatze2019DeepJSCCDecoder.forward, Tm.Tung2022DeepJSCCQEncoder.forward, Tm.Tung2022DeepJSCCQDecoder.forward,
                Tm.Tung2022DeepJSCCQ2Encoder.forward, Tm.Tung2022DeepJSCCQ2Decoder.forward)
-    ck.bound("sizes", f"batch 1..{BMAX}, height and width in [{HMIN},{HMAX}] that are multiples of the architecture's total stride; output sizes are the integer expressions torch's own symbolic-shape tracer derives from the real modules; regions excluded by a trace's guards are re-traced (<= 14 traces) until the admissible set is covered")
+    ck.bound("sizes", f"batch 1..{BMAX}, height and width in [{HMIN},{HMAX}] that are multiples of the architecture's total stride; output sizes are the integer expressions torch's own symbolic-shape tracer derives from the real modules; regions excluded by a trace's guards are re-traced (<= {MAXTR} traces) until the admissible set is covered")
     ck.assume("OUTSIDE THE CLAIM: differentiability of channels/constraints (autograd is C++ and symbolic tensors carry no autograd graph), gradient flow to encoder parameters, output value ranges of the image decoders; see DESIGN §6")
     ck.assume("kernel shape inference of torch (meta/fake kernels) is trusted")
     ck.run_items(__name__, "work_entry", items)
